@@ -252,14 +252,19 @@ func (ci *ChunkInfo) getChunkCid(rootCid boson.Address) []*PyramidCidNum {
 	return cids
 }
 
-func (ci *ChunkInfo) getCidSort(rootCid, cid boson.Address) int {
+// getCidSort returns the index of the data chunk cid within the file rootCid.
+// ok is false when cid is not a data chunk of the file (a manifest, root or
+// intermediate chunk, or a chunk of another file) or the pyramid cannot be read;
+// the index is then 0 and must not be used to mark a chunk.
+func (ci *ChunkInfo) getCidSort(rootCid, cid boson.Address) (sort int, ok bool) {
 	ci.cp.RLock()
 	defer ci.cp.RUnlock()
 	pyramid, err := ci.getPyramid(rootCid)
 	if err != nil {
-		return 0
+		return 0, false
 	}
-	return pyramid.cids[cid.String()].sort
+	v, ok := pyramid.cids[cid.String()]
+	return v.sort, ok
 }
 
 // func (cp *chunkPyramid) updateCidSort(rootCid, cid boson.Address, sort int) {
